@@ -194,13 +194,9 @@ def walk(db, on_provable=None, strict=True):
             k = s[0]
             if k == 'C':
                 for c in s[1]:
-                    if strict and (c in sc.consts or c in sc.vars):
-                        raise Invalid(f'redeclared:{c}')
                     sc.consts.add(c)
             elif k == 'V':
                 for v in s[1]:
-                    if strict and (v in sc.consts or v in sc.vars):
-                        raise Invalid(f'redeclared:{v}')
                     sc.vars.add(v)
             elif k == 'D':
                 for v in s[1]:
@@ -217,8 +213,6 @@ def walk(db, on_provable=None, strict=True):
                         raise Invalid(f'undeclared-constant:{ty} (typecode of $f {lab})')
                     if v not in sc.vars:
                         raise Invalid(f'undeclared-variable:{v} in $f {lab}')
-                    if lab in sc.all_labels:
-                        raise Invalid(f'duplicate-label:{lab}')
                 sc.all_labels.add(lab)
                 sc.hyps.append((lab, 'f', [ty, v], v))
                 sc.labels[lab] = ('hyp', [ty, v])
@@ -227,8 +221,6 @@ def walk(db, on_provable=None, strict=True):
                 e = flats(ts)
                 if strict:
                     check_expr(sc, e, f'$e {lab}')
-                    if lab in sc.all_labels:
-                        raise Invalid(f'duplicate-label:{lab}')
                 sc.all_labels.add(lab)
                 sc.hyps.append((lab, 'e', e, None))
                 sc.labels[lab] = ('hyp', e)
@@ -237,8 +229,6 @@ def walk(db, on_provable=None, strict=True):
                 e = flats(ts)
                 if strict:
                     check_expr(sc, e, f'${k.lower()} {lab}')
-                    if lab in sc.all_labels:
-                        raise Invalid(f'duplicate-label:{lab}')
                 fr = make_frame(sc, e)
                 if k == 'P' and on_provable is not None:
                     on_provable(sc, lab, fr, s[3])
